@@ -6,6 +6,14 @@ import athlib
 from athlib import HighJumpCompetition, RuleViolation
 
 
+ADD_VARIANTS = {
+    'DNS': {'order': 'DNS'}, 'DQ': {'order': 'DQ'}, 'order': {'order': 7}, 'none': {'order': None},
+    'full': {'first_name': 'Late', 'last_name': 'Entry', 'team': 'XYZ', 'gender': 'F', 'category': 'U20', 'order': 3},
+    # keywords of the JavaScript port's start-list entries (the Python constructor takes any keyword): a guest / non-scorer
+    'guest': {'non_scorer': True, 'team': 'GUEST'},
+}
+
+
 def new_comp():
     return HighJumpCompetition()
 
@@ -17,6 +25,9 @@ def apply(c, call, float_heights=False):
     try:
         if op == 'add':
             c.add_jumper(bib=arg)
+        elif op.startswith('add:'):
+            # the same call with the optional keywords a start list carries (no rule mentions them)
+            c.add_jumper(bib=arg, **ADD_VARIANTS[op[4:]])
         elif op == 'bar':
             c.set_bar_height(float(arg) if float_heights else arg)
         else:
